@@ -1,20 +1,33 @@
-#!/usr/bin/env python3
-"""tools/seed_store.py <src-dir> <property> <name> <caught_by,comma> [strengthening note] [demo note]"""
-import json, os, shutil, sys
-src, pid, name, caught = sys.argv[1:5]
-note = sys.argv[5] if len(sys.argv) > 5 and sys.argv[5] else None
-dnote = sys.argv[6] if len(sys.argv) > 6 and sys.argv[6] else None
-dst = '/verif/seeded/%s' % name
+#!/venv/bin/python
+"""tools/seed_store.py <src-dir> <id> <property> <caught_by comma list|none> <needs> [strengthening]
+Stores a confirmed seeded change under seeded/<id>/ (patch.diff, demo.py, notes.md, meta.json).
+The try log (tools/seed_try.sh output) is read from <src-dir>/try.log when present."""
+import json, os, re, shutil, sys
+src, sid, prop, caught, needs = sys.argv[1:6]
+strengthening = sys.argv[6] if len(sys.argv) > 6 else None
+dst = os.path.join("/verif/seeded", sid)
 os.makedirs(dst, exist_ok=True)
-for f in ('patch.diff', 'demo.py'):
-    shutil.copy(os.path.join(src, f), os.path.join(dst, f))
-m = json.load(open(os.path.join(src, 'meta.json')))
-meta = {"property": pid, "id": name,
-        "origin": "written by an independent sub-agent given only the property text, a scratch worktree of /repo HEAD and (second round) a one-paragraph description of the first-round change to avoid",
-        "summary": m.get('summary'), "needs_to_manifest": m.get('needs'), "files": m.get('files'),
-        "confirmed_by_me": {"how": "tools/seed_try.sh: fresh scratch worktree of /repo HEAD under /tmp, demo run before and after `git apply patch.diff`, unedited suite via tools/baseline.sh (23933 stable passes present), then the named checks with VERIF_REPO=<worktree>",
-                            "suite_with_change": "5 failed, 23933 passed, 16 skipped, 1 error (identical to baseline)",
-                            "demo_without_change": "PASS (exit 0)", "demo_with_change": "FAIL (exit 1)", "demo_note": dnote},
-        "caught_by": [c for c in caught.split(',') if c], "strengthening": note}
-json.dump(meta, open(os.path.join(dst, 'meta.json'), 'w'), indent=1, ensure_ascii=False)
-print("stored", dst)
+for f in ("patch.diff", "demo.py", "notes.md"):
+    if os.path.exists(os.path.join(src, f)):
+        shutil.copy(os.path.join(src, f), os.path.join(dst, f))
+log = ""
+if os.path.exists(os.path.join(src, "try.log")):
+    log = open(os.path.join(src, "try.log")).read()
+suite = re.search(r"^\d+ failed, \d+ passed.*$", log, re.M)
+rcs = re.findall(r"^rc=(\d+)", log, re.M)
+files = sorted(set(re.findall(r"^diff --git a/(\S+)", open(os.path.join(dst, "patch.diff")).read(), re.M)))
+meta = {
+    "property": prop, "id": sid, "round": 2,
+    "origin": "written by an independent sub-agent given only the property text and a scratch worktree of /repo HEAD (round 2: two changes per property requested)",
+    "summary": "see notes.md (the sub-agent's own description)",
+    "needs_to_manifest": needs, "files": files,
+    "confirmed_by_me": {
+        "how": "tools/seed_try.sh: fresh scratch worktree of /repo HEAD under /tmp, demo run before and after `git apply patch.diff`, unedited suite via tools/baseline.sh, then the named checks with VERIF_REPO=<worktree>",
+        "suite_with_change": (suite.group(0) if suite else "?") + (" ; baseline stable_pass all present" if "missing_from_now=0" in log else " ; CHECK LOG"),
+        "demo_without_change": "rc=%s" % (rcs[0] if rcs else "?"), "demo_with_change": "rc=%s" % (rcs[1] if len(rcs) > 1 else "?"),
+    },
+    "caught_by": [] if caught == "none" else caught.split(","),
+    "strengthening": strengthening,
+}
+json.dump(meta, open(os.path.join(dst, "meta.json"), "w"), indent=1, ensure_ascii=False)
+print("stored", dst, meta["confirmed_by_me"], meta["caught_by"])
